@@ -311,6 +311,8 @@ def main(argv=None):
     from symx.api import stable_hash
     confirmed, unreproduced = [], []
     seen = set()
+    todo, per_label, not_replayed = [], {}, 0
+    cap_total = int(os.environ.get("VERIF_MAX_REPLAYS", "48"))
     for r, v in violations:
         job = dict(pid=pid, mod=modname, unit=r["unit"], func=r["func"], params=r["params"], inputs=v["inputs"],
                    label=v["label"], info=v.get("info"), framework=r.get("framework", "twisted"))
@@ -318,13 +320,26 @@ def main(argv=None):
         if h in seen:
             continue
         seen.add(h)
-        o = plain_run(modname, r["func"], r["params"], v["inputs"], framework=r.get("framework", "twisted"))
-        if o.get("failures"):
-            path = os.path.join(REPLAY_DIR, "%s-%s.json" % (pid, h))
-            json.dump(job, open(path, "w"), indent=1)
-            confirmed.append((path, job, o))
-        else:
-            unreproduced.append((job, o))
+        # every witness is a solver model; only replayed ones are ever reported. Replay a bounded, label-diverse selection.
+        k = per_label.get(v["label"], 0)
+        if len(todo) >= cap_total or k >= 6:
+            not_replayed += 1
+            continue
+        per_label[v["label"]] = k + 1
+        todo.append((h, job, r, v))
+    if todo:
+        from multiprocessing.pool import ThreadPool
+        with ThreadPool(min(16, len(todo))) as tp:
+            outs = tp.map(lambda x: plain_run(modname, x[2]["func"], x[2]["params"], x[3]["inputs"], framework=x[2].get("framework", "twisted")), todo)
+        for (h, job, r, v), o in zip(todo, outs):
+            if o.get("failures"):
+                path = os.path.join(REPLAY_DIR, "%s-%s.json" % (pid, h))
+                json.dump(job, open(path, "w"), indent=1)
+                confirmed.append((path, job, o))
+            else:
+                unreproduced.append((job, o))
+    if not_replayed:
+        print("note: %d further solver witnesses were not replayed (replay cap %d, 6 per label) and are not reported" % (not_replayed, cap_total))
     known_confirmed = []
     for kid, (r, w) in known_hits.items():
         o = plain_run(modname, r["func"], r["params"], w["inputs"], framework=r.get("framework", "twisted"))
